@@ -181,7 +181,7 @@ def run(args):
                         break
             r['codes'] = codes
             r['killers'] = killers
-            r['verdict'] = 'killed' if killers else ('machinery_error' if any(v >= 2 for v in codes.values()) else 'survived')
+            r['verdict'] = 'killed' if killers else ('machinery_error' if any(v >= 2 or v < 0 for v in codes.values()) else 'survived')
         r['wall_s'] = round(time.time() - t0, 1)
         json.dump(r, open(res_path, 'w'), indent=1)
         print(m['id'], m['file'], m['line'], m['class'], repr(m['from']), '->', repr(m['to']), ':', r['verdict'], r.get('killers', ''), '%ds' % r['wall_s'], flush=True)
